@@ -11,6 +11,7 @@ _UNIT_MODULES = [
     "units.u_symbols.unit",
     "units.u_rulemap.unit",
     "units.u_literal.unit",
+    "units.u_format.unit",
 ]
 
 UNITS = {}
@@ -25,7 +26,7 @@ REPORT_TB = ["ASSUMED contracts of diagn::Report methods (units/contracts_report
 RESOLVER_TB = ["ASSUMED contracts of unverified customasm code used by U-resolver/U-iterate: asm::resolver::eval / eval_certain ('Err is loud, Ok is clean'), resolve_constant / resolve_instruction / resolve_data_element (the per-item pass contract), ResolveIterator::new/next (flags copied; the yielded node refers to defined items), Value::expect_error_or_bigint / expect_bool, DefList::get_mut (frame), derived PartialEq of expr::Value",
                "ghost event `ItemDefs::confirmed()` is produced only by resolve_once's stub clause [confirms] (a name for 'a no-guess pass answered Resolved'); termination of resolve_once's loop is not proved"]
 
-ALL_UNITS = ["U-overlap", "U-bigint", "U-constrain", "U-resolver", "U-iterate", "U-bitvec", "U-output", "U-charcount", "U-symbols", "U-rulemap"]
+ALL_UNITS = ["U-overlap", "U-bigint", "U-constrain", "U-resolver", "U-iterate", "U-bitvec", "U-output", "U-charcount", "U-symbols", "U-rulemap", "U-literal", "U-format"]
 
 PROPERTIES = {
     "C01": {
@@ -47,9 +48,9 @@ PROPERTIES = {
         "trusted_base": NUMBIGINT_TB + REPORT_TB + RESOLVER_TB,
     },
     "C11": {
-        "units": ["U-bitvec"],
-        "claim": "Bit-store layer only: BitVec::read_bit returns bit i of the store and false at or beyond len (representation invariant wf, preserved by every write); BitVec::to_bigint is the MSB-first value of exactly len bits.",
-        "not_reached": "the text produced by every formatter (format_binary, hex/bin strings, dumps, MIF, Intel HEX, separators, C arrays, Logisim): U-format pending; get_blocks (sort_by)",
+        "units": ["U-bitvec", "U-format"],
+        "claim": "Raw binary, bit-string and hex-string formats, for outputs of every length (empty and non-multiple included): format_binary yields ceil(len/8) bytes, byte k being bits [8k, 8k+8) MSB first with zero padding; format_str/binstr/hexstr yield ceil(len/b) lower-case digits, digit k being bits [bk, bk+b) MSB first. Bit-store layer: BitVec::read_bit returns bit i of the store and false at or beyond len (representation invariant wf, preserved by every write); BitVec::to_bigint is the MSB-first value of exactly len bits.",
+        "not_reached": "the text of the other formats (dumps, MIF, Intel HEX with addresses and checksums, separators, C arrays, Logisim): their content goes through format!, which has no specification; get_blocks (sort_by); format selection in the driver",
         "trusted_base": NUMBIGINT_TB,
     },
     "C12": {
@@ -95,8 +96,8 @@ PROPERTIES = {
         "trusted_base": NUMBIGINT_TB + REPORT_TB,
     },
     "C05": {
-        "units": ["U-bigint"],
-        "claim": "util::BigInt integer layer, for all unbounded integers: checked_add/sub/mul are exact or Err beyond the magnitude cap; checked_div truncates toward zero and fails exactly on a zero divisor; checked_mod has the sign of the dividend; checked_shl multiplies by 2^k, checked_shr floors; slice/concat select and join exactly the named bits of the infinite two's-complement expansion and produce sized non-negative values; neg, &, |, ^ forward to the big-integer operation; sizes are tracked as stated.",
+        "units": ["U-bigint", "U-literal"],
+        "claim": "util::BigInt integer layer, for all unbounded integers: checked_add/sub/mul are exact or Err beyond the magnitude cap; checked_div truncates toward zero and fails exactly on a zero divisor; checked_mod has the sign of the dividend; checked_shl multiplies by 2^k, checked_shr floors; slice/concat select and join exactly the named bits of the infinite two's-complement expansion and produce sized non-negative values; neg, &, |, ^ forward to the big-integer operation; sizes are tracked as stated. Literals: parse_radix implements the prefix rule (0b/0o/0x/%/$), excerpt_as_usize returns exactly the value of the digits ignoring '_' or fails loudly on a bad digit or a value above the machine word.",
         "not_reached": "operator precedence/associativity (expr/parser.rs), the tree-walking evaluator, string escapes/encodings, built-in functions, `!` (byte-level Not), convert_le, literal parsing (U-literal pending)",
         "trusted_base": NUMBIGINT_TB + REPORT_TB,
     },
